@@ -239,6 +239,17 @@ def run(chk, facts_dir, tier):
         chk.ok("R8.4", "load_bucket_state tries current, then previous", lb.where(cur[0][2]))
     else:
         chk.fail("R8.4", MGR + "load_bucket_state", "load-order", "state loading does not try `current` first and `previous` as fallback: %s" % [(sorted(k), l) for _, k, l in loads], lb)
+    # the empty state is the LAST resort: it is only installed after both files were tried (between the two renames of a persist only `previous` exists)
+    if len(cur) == 1 and len(prev) == 1:
+        empties = [(bi, t) for bi, t in lb.calls() if (lb.callee_decl(t) or "").endswith("HashMap::<K, V>::new") or (lb.callee_decl(t) or "").endswith("::default")]
+        if not empties:
+            chk.ok("R8.4", "no empty-state fallback in load_bucket_state", lb.where())
+        for bi, t in empties:
+            if lb.dominates(prev[0][0], bi) and lb.dominates(cur[0][0], bi):
+                chk.ok("R8.4", "the empty state is installed only after current and previous were both tried", lb.where(t["line"]))
+            else:
+                chk.fail("R8.4", MGR + "load_bucket_state", "empty-before-fallback", "an empty confirmation state is installed on a path that did not try both state files: a crash between the "
+                         "two renames of persist_bucket_state leaves only `previous`, and this path restarts the watermark at 0", lb, t["line"])
 
     # ---------------- R8.5
     ib = prog.body(MGR + "initialize::{closure#0}")
